@@ -284,15 +284,15 @@ Qed.
 (* ids shorter than 8 bytes: panic; not hex: error; longer than 8 bytes: only the first 8
    bytes are used, where NUT-13 takes the whole id *)
 Example keyset_int_short_panics : keyset_int_impl (str "00ffeeddccbbaa") = Panic.
-Proof. vm_compute. reflexivity. Qed.
+Proof. vm_check. Qed.
 Example keyset_int_empty_panics : keyset_int_impl [] = Panic.
-Proof. vm_compute. reflexivity. Qed.
+Proof. vm_check. Qed.
 Example keyset_int_odd_errors : keyset_int_impl (str "009a1f293253e41") = Err.
-Proof. vm_compute. reflexivity. Qed.
+Proof. vm_check. Qed.
 Example keyset_int_nonhex_errors : keyset_int_impl (str "009a1f293253e4zz") = Err.
-Proof. vm_compute. reflexivity. Qed.
+Proof. vm_check. Qed.
 Example keyset_int_vector : keyset_int_impl (str "009a1f293253e41e") = Ok 864559728.
-Proof. vm_compute. reflexivity. Qed.
+Proof. vm_check. Qed.
 Example keyset_int_long_id_differs :
   keyset_int_impl (str "009a1f293253e41e77") = Ok 864559728 /\
   nut13_keyset_int (hexs "009a1f293253e41e77") <> 864559728.
@@ -318,4 +318,4 @@ Example nut13_vector_0 :
   nut13_derive nut13_test_seed (str "009a1f293253e41e") 0 =
   Ok (str "485875df74771877439ac06339e284c3acfcd9be7abf3bc20b516faeadfe77ae",
       hexs "ad00d431add9c673e843d4c2bf9a778a5f402b985b8da2d5550bf39cda41d679").
-Proof. vm_compute. reflexivity. Qed.
+Proof. vm_check. Qed.
